@@ -15,6 +15,7 @@ from typing import Union
 from jsonpath.function_extensions.filter_function import ExpressionType
 from jsonpath.function_extensions.filter_function import FilterFunction
 
+from .exceptions import JSONPathIndexError
 from .exceptions import JSONPathSyntaxError
 from .exceptions import JSONPathTypeError
 from .filter import FALSE
@@ -354,28 +355,23 @@ class Parser:
         stream.expect(TOKEN_SLICE_STEP)
         step_token = stream.current
 
-        if not start_token.value:
-            start: Optional[int] = None
-        else:
-            start = int(start_token.value)
-
-        if not stop_token.value:
-            stop: Optional[int] = None
-        else:
-            stop = int(stop_token.value)
-
-        if not step_token.value:
-            step: Optional[int] = None
-        else:
-            step = int(step_token.value)
-
         return SliceSelector(
             env=self.env,
             token=start_token,
-            start=start,
-            stop=stop,
-            step=step,
+            start=self._slice_bound(start_token),
+            stop=self._slice_bound(stop_token),
+            step=self._slice_bound(step_token),
         )
+
+    def _slice_bound(self, token: Token) -> Optional[int]:
+        if not token.value:
+            return None
+
+        try:
+            return int(token.value)
+        except ValueError:
+            # More digits than Python is willing to convert.
+            raise JSONPathIndexError("index out of range", token=token) from None
 
     def parse_selector_list(self, stream: TokenStream) -> ListSelector:  # noqa: PLR0912
         """Parse a comma separated list JSONPath selectors from a stream of tokens."""
